@@ -428,8 +428,10 @@ pub fn check(a: &CheckArgs) -> i32 {
     let t0 = Instant::now();
     let property = a.property.as_str();
     let thorough = a.thorough();
-    let budget = a.budget(55);
-    let max_runs = a.runs.unwrap_or(u64::MAX);
+    // quick: a fixed number of seeds (verdict independent of machine load) under a generous
+    // wall-clock budget; thorough: budget bound
+    let budget = a.budget(600);
+    let max_runs = a.runs.unwrap_or(if thorough { u64::MAX } else { 2000 });
 
     // ---- global wall-clock watchdog (covers the self-check phase as well): a run that never
     // returns (e.g. an endless loop inside one poll) is a harness error, never a verdict
